@@ -512,6 +512,91 @@ func init() {
 		Outside:  "3..8 concurrent senders and 600 Sends (one exchange from every counter value stands for any number of exchanges: requestTunnel keeps no other state between calls); real-time jitter: virtual time advances only when no goroutine can move",
 		Assume:   []string{"time.After/NewTicker/Stop are engine primitives on a virtual clock (timers never fire early, fire when nothing else can run)", "sync.Mutex: Unlock makes any waiter or newcomer eligible"},
 	})
+
+	c17 := func(maxK int64) []Inst {
+		var out []Inst
+		for client := int64(0); client < 3; client++ {
+			for k := int64(2); k <= maxK; k++ {
+				for mode := int64(0); mode < 3; mode++ {
+					out = append(out, Inst{Pkg: "knx", Fn: "HarnessC17", Args: []int64{client, k, mode}})
+				}
+			}
+		}
+		return out
+	}
+	reg(&Spec{
+		ID:       "C17",
+		NoNative: true,
+		Quick:    func(l *loaded) []Inst { return c17(3) },
+		Thorough: func(l *loaded) []Inst { return c17(5) },
+		Covers:   []string{"C17.end"},
+		Bounds:   "tunnel client, router client and the group layer; bursts of 2..3 (thorough ..5) accepted telegrams; consumer always waiting, absent for the whole burst, or taking one telegram and then stalling; every interleaving of the server side, the parked delivery goroutines and the consumer",
+		Outside:  "bursts longer than 5; the runtime's FIFO order among senders that are already blocked is not modelled (any blocked sender may be served), which only adds schedules",
+	})
+
+	c14 := func(thorough bool) []Inst {
+		var out []Inst
+		rs := []int64{1, 2, 3}
+		for _, R := range rs {
+			for r := int64(0); r <= R; r++ {
+				for mode := int64(0); mode <= 3; mode++ {
+					if mode == 3 && r == 0 {
+						continue
+					}
+					out = append(out, Inst{Pkg: "knx", Fn: "HarnessC14Step", Args: []int64{R, r, mode}, Note: "one step from an arbitrary retained history"})
+				}
+			}
+		}
+		for r := int64(0); r <= 3; r++ {
+			out = append(out, Inst{Pkg: "knx", Fn: "HarnessC14Step", Args: []int64{32, r, 0}}, Inst{Pkg: "knx", Fn: "HarnessC14Step", Args: []int64{32, r, 2}})
+		}
+		ctx := 2
+		if thorough {
+			ctx = 3
+		}
+		for sc := int64(0); sc <= 2; sc++ {
+			out = append(out, Inst{Pkg: "knx", Fn: "HarnessC14Run", Args: []int64{sc}, Ctx: ctx, RandChoice: true, MaxSched: 20000, Note: "real serve goroutine"})
+		}
+		return out
+	}
+	reg(&Spec{
+		ID:       "C14",
+		NoNative: true,
+		Quick:    func(l *loaded) []Inst { return c14(false) },
+		Thorough: func(l *loaded) []Inst { return c14(true) },
+		Covers:   []string{"C14.step.sent", "C14.step.sendfail", "C14.lost.resent", "C14.lost.partial", "C14.run.end"},
+		Bounds:   "one real Send / resendLost step from every retained history of length r <= R for R in {1,2,3} and R = 32 with r <= 3 (messages are distinct objects), lost count fully symbolic (0..65535), transmission failing at a nondeterministic position; bounded runs of the real serve goroutine with senders, lost and busy indications, slow/absent reader and Close, context bound 2 (thorough 3)",
+		Outside:  "retain counts 4..31 and 33..64, 300-send histories (covered by induction over the one-step harness: Send and resendLost keep no state but the list), a lost indication arriving while an earlier resend is still in progress (excluded by the property)",
+		Assume:   []string{"container/list is executed from its real SSA", "in the bounded runs math/rand.Float64 is one of {0, 0.5, 0.9999999}"},
+	})
+	c13 := func(thorough bool) []Inst {
+		out := []Inst{{Pkg: "knx", Fn: "HarnessC13Cap", Note: "symbolic wait time, control and random part"}}
+		add := func(ns, per, nb, pause, wait int64, ctx int) {
+			out = append(out, Inst{Pkg: "knx", Fn: "HarnessC13", Args: []int64{ns, per, nb, pause, wait}, Ctx: ctx, RandChoice: true, MaxSched: 20000})
+		}
+		add(2, 2, 1, 5, 30, 2)
+		add(2, 1, 1, 20, 500, 2)
+		add(2, 1, 2, 5, 30, 2)
+		add(1, 2, 1, 0, 10, 3)
+		add(2, 2, 0, 20, 0, 3)
+		if thorough {
+			add(3, 2, 2, 5, 30, 2)
+			add(3, 1, 2, 20, 100, 3)
+			add(2, 2, 2, 0, 60, 3)
+		}
+		return out
+	}
+	reg(&Spec{
+		ID:       "C13",
+		NoNative: true,
+		Solver:   "cvc5",
+		Quick:    func(l *loaded) []Inst { return c13(false) },
+		Thorough: func(l *loaded) []Inst { return c13(true) },
+		Covers:   []string{"C13.end", "C13.cap.end"},
+		Bounds:   "real serve goroutine and 1..2 (thorough 3) sender goroutines x 1..2 messages, 0..2 busy indications handed in at every point of the interleaving (context bound 2..3), pause in {0,5,20} ms, wait in {0,10,30,60,100,500} ms on the virtual clock (lower-bound semantics: goroutines take no time, timers fire exactly at their deadline); the 50 ms cap and the resume obligation with a fully symbolic 16-bit wait time, control word and random part",
+		Outside:  "8 senders and bursts of 200; the clause 'at most one further transmission per goroutine already inside Send' needs a fair (FIFO) mutex and is not decided: under the plain sync.Mutex contract a newcomer may barge (see DESIGN 3.2) - decided instead: nothing is transmitted from the instant the server goroutine owns the lock until min(wait, 50 ms) later, pacing gap, every Send returns",
+		Assume:   []string{"sync.Mutex: any waiter or newcomer may win an unlocked mutex", "time.AfterFunc/Sleep are engine primitives on the virtual clock"},
+	})
 }
 
 func dptWireLen(m int64) int64 {
